@@ -4094,10 +4094,12 @@ static void DecodeBcc(Word CondCode) {
 
                 /* BSR is the one branch whose short form is not always usable (zero
                    displacement), so shrinking it can enlarge it again in the next
-                   pass, e.g. with an ALIGN between the BSR and its target.  Stop
-                   shrinking in late passes so that assembly always settles: */
+                   pass, e.g. with an ALIGN between the BSR and its target.  The
+                   same goes for any forward reference whose target lies behind the
+                   branch numerically (out of a PHASEd block).  Stop shrinking in
+                   late passes so that assembly always settles: */
 
-                else if (IsBSR && (PassNo > 8)) {
+                else if ((IsBSR || mUsesForwards(Flags)) && (PassNo > 8)) {
                     OpSize = eSymbolSize32Bit;
                 } else {
                     OpSize = eSymbolSizeFloat32Bit;
